@@ -284,6 +284,7 @@ def check_table(df, target, kind, args, step):
     reg = call(target.get_dosing_regimen, max(times))
     if is_exc(reg):
         return
+    check_regimen_rows(target, kind, max(times), reg, step)
     if 'Dose' in df.columns:
         doses = df[df['Dose'].notnull()]
     else:
@@ -313,6 +314,62 @@ def check_table(df, target, kind, args, step):
                 'table.doses', 'differs',
                 '%s: dose rows of ID %d %s, regimen up to %s is %s' % (
                     kind, i, got, max(times), want_rows), step)
+
+
+def expected_dose_rows(protocol, final_time):
+    """Dose events up to and including ``final_time``, expanded from the
+    myokit protocol itself - an oracle that does not share the code path of
+    ``get_dosing_regimen``.  Returns None when the protocol holds an
+    indefinitely repeated event (chi's documented treatment of those is not
+    an expansion, so nothing is demanded there)."""
+    rows = []
+    for ev in protocol.events():
+        start, dur, per, mult = (ev.start(), ev.duration(), ev.period(),
+                                 ev.multiplier())
+        if per != 0 and mult == 0:
+            return None
+        n = 1 if per == 0 else mult
+        for k in range(n):
+            t = start + k * per if per != 0 else start
+            if t <= final_time:
+                rows.append((float(t), float(dur), float(ev.level() * dur)))
+    return sorted(rows)
+
+
+def check_regimen_rows(target, kind, final_time, reg, step):
+    """The dose rows the tables are built from (``get_dosing_regimen``) are
+    the events of the protocol the mechanistic model reports, up to and
+    including the final time - also when the final time is itself a dose
+    time, which is asked for explicitly."""
+    if kind not in ('pred', 'pp', 'cpp', 'cpred'):
+        return
+    base = target._predictive_model if kind in ('pp', 'cpp') else target
+    prot = call(lambda: base.get_submodels()[
+        'Mechanistic model'].dosing_regimen())
+    if is_exc(prot) or prot is None:
+        return
+
+    def rows_of(r):
+        if r is None:
+            return []
+        return sorted((float(x['Time']), float(x['Duration']),
+                       float(x['Dose'])) for _, x in r.iterrows())
+    want = expected_dose_rows(prot, final_time)
+    if want is None:
+        return
+    finals = [(final_time, reg)]
+    every = expected_dose_rows(prot, float('inf'))
+    for t in sorted(set(r[0] for r in every))[:4]:
+        got = call(target.get_dosing_regimen, t)
+        if not is_exc(got):
+            finals.append((t, got))
+    for ft, r in finals:
+        want = expected_dose_rows(prot, ft)
+        if rows_of(r) != want:
+            raise Violation(
+                'table.doses', 'not_the_protocol_events',
+                '%s: get_dosing_regimen(%s) lists %s, the protocol holds %s '
+                'up to that time' % (kind, ft, rows_of(r), want), step)
 
 
 class Intercept(object):
